@@ -54,3 +54,39 @@ Theorem C05_update_is_assignment : forall n buf pos vals,
   cop_fwd Z 0%Z 1%Z Z.add Z.mul [buf; vals] (update_cop n pos) = write buf pos vals.
 Proof. exact update_cop_is_write. Qed.
 Print Assumptions C05_update_is_assignment.
+
+(* ---------------------------------------------------------------------------------------------------------------------
+   Pointer level (Model/Heap.v, tied to /repo by the object-graph correspondence of harness/heapcorr.py): what a SUCCESSFUL
+   in-place operation does to the recorded graph.  "Operations evaluated before a mutation differentiate through the
+   pre-mutation values": every operation that existed keeps its class, and each of its variables is either kept or replaced
+   by a NEW tensor (the placeholder) carrying the old creator, the old array object and the old consumer set; the target
+   tensor itself moves to a new array over a new buffer that no array of the old heap shares. *)
+From MG Require Model.Heap.
+From MG Require Import Proofs.HeapP1 Proofs.HeapWfb Proofs.HeapP2 Proofs.HeapP21 Proofs.HeapCor.
+
+Theorem C05_heap_old_operations_read_pre_mutation_tensors :
+  forall h m k inputs masked h', wf h -> (forall i, In i inputs -> Heap.getT h i <> None) ->
+  Heap.inplace h m k inputs masked false = Some (Heap.Done h') ->
+  forall o r0, Heap.getO h o = Some r0 ->
+  exists r1, Heap.getO h' o = Some r1 /\ Heap.o_kind r1 = Heap.o_kind r0 /\ Heap.o_keep r1 = Heap.o_keep r0 /\
+    Forall2 (fun v v' => v' = v \/
+                         (Heap.h_next h <= v' /\ exists r rp, Heap.getT h v = Some r /\ Heap.getT h' v' = Some rp /\
+                            Heap.t_creator rp = Heap.t_creator r /\ Heap.t_data rp = Heap.t_data r /\ Heap.t_ops rp = Heap.t_ops r))
+            (Heap.o_vars r0) (Heap.o_vars r1).
+Proof. exact success_old_consumers. Qed.
+Print Assumptions C05_heap_old_operations_read_pre_mutation_tensors.
+
+Theorem C05_heap_target_moves_to_a_fresh_buffer :
+  forall ss h, run_ok Heap.empty_heap ss -> Heap.run Heap.empty_heap ss = Some h ->
+  forall m k inputs masked h', (forall i, In i inputs -> Heap.getT h i <> None) ->
+  Heap.inplace h m k inputs masked false = Some (Heap.Done h') ->
+  exists rm ra, Heap.getT h' m = Some rm /\ Heap.getA h' (Heap.t_data rm) = Some ra /\
+    (forall a, Heap.getA h a <> None -> a <> Heap.t_data rm) /\ (forall a ra0, Heap.getA h a = Some ra0 -> Heap.a_buf ra0 <> Heap.a_buf ra).
+Proof. exact reachable_success_target_fresh_array. Qed.
+Print Assumptions C05_heap_target_moves_to_a_fresh_buffer.
+
+Theorem C05_heap_success_preserves_invariant :
+  forall h m k inputs masked h', wf h -> (forall i, In i inputs -> Heap.getT h i <> None) ->
+  Heap.inplace h m k inputs masked false = Some (Heap.Done h') -> wf h'.
+Proof. exact success_wf. Qed.
+Print Assumptions C05_heap_success_preserves_invariant.
